@@ -223,6 +223,7 @@ func vfC14Trunc(s string) string {
 
 func TestVerifC14KeyTagDS(t *testing.T) {
 	defer vfstat.Flush()
+	vfstat.Quiet()
 	const U = "C14.keytag_ds"
 	rapid.Check(t, func(rt *rapid.T) {
 		k := &dns.DNSKEY{
@@ -1074,6 +1075,7 @@ func vfC14Render(c *vfC14Case, o vfC14Outcome) map[string]any {
 func TestVerifC14Signatures(t *testing.T) {
 	vfC14Init(t)
 	defer vfstat.Flush()
+	vfstat.Quiet()
 	const U = "C14.signatures"
 	var slow time.Duration
 	rapid.Check(t, func(rt *rapid.T) {
@@ -1129,6 +1131,7 @@ func TestVerifC14Signatures(t *testing.T) {
 func TestVerifC14Hostile(t *testing.T) {
 	vfC14Init(t)
 	defer vfstat.Flush()
+	vfstat.Quiet()
 	const U = "C14.hostile"
 	rapid.Check(t, func(rt *rapid.T) {
 		alg := rapid.SampledFrom([]uint8{5, 7, 8, 10, 13, 14, 15, 1, 0, 255}).Draw(rt, "alg")
